@@ -10,6 +10,7 @@ CONSTANTS
   Rts = {"x1"}
   Lbs = {"rr"}
   HostSets = {{"h1", "h2"}}
+  Attrs = {"a1", "a2"}
   LocLists = {"L3"}
   Defects = {"HostsNotRecorded"}
 SPECIFICATION Spec
